@@ -47,6 +47,19 @@ def search(strategy, check, *, seed, max_examples, stats, to_case, shrink=True, 
             except Discard as d:
                 stats.discard(d.why)
                 return
+            except Exception as e:  # noqa
+                # an exception raised inside the compiler under test is a finding (it must only raise
+                # CompilerError, which the checks handle); anything raised by the harness itself propagates
+                import os
+                import traceback
+                tb = traceback.extract_tb(e.__traceback__)
+                repo = os.path.realpath(os.environ.get('HIDC_REPO', '/repo')) + os.sep
+                if tb and os.path.realpath(tb[-1].filename).startswith(repo):
+                    r = ('hidc-crash:%s:%s:%d' % (type(e).__name__, os.path.basename(tb[-1].filename), tb[-1].lineno),
+                         'internal exception escapes the compiler: %s: %s at %s:%d\ninput: %r' % (
+                             type(e).__name__, e, tb[-1].filename, tb[-1].lineno, value if isinstance(value, str) else '(structured case)'))
+                else:
+                    raise
             if r is None:
                 return
             sig, msg = r
